@@ -140,6 +140,9 @@ pub struct Outcome {
     pub unlocked_markers: Vec<u64>,
     /// certificates that are script-locked by the ledger's rules and were admitted by plain add() (no witness)
     pub unwitnessed_locked: Vec<Vec<u8>>,
+    /// keys the caller declared as signers on the inputs builder (TxInputsBuilder::add_required_signer(s)): they are not
+    /// written into the body, but the caller announced that they sign, and the size prediction counts them
+    pub declared_signers: Vec<usize>,
     /// certificates in the order of their first successful insertion
     pub cert_order: Vec<Vec<u8>>,
 }
@@ -399,6 +402,8 @@ struct Run<'a> {
     focus: Focus,
     /// assets available from inputs / mint and not yet promised to an output
     spare_assets: BTreeMap<AssetId, u64>,
+    /// what the mint operations so far added to `spare_assets` (taken back when the mint builder is removed)
+    minted: BTreeMap<AssetId, u64>,
     in_coin: u128,
     out_coin: u128,
     implicit_in: u128,
@@ -407,6 +412,7 @@ struct Run<'a> {
     cert_history: Vec<(Certificate, usize, u8, usize)>,
     unlocked_markers: Vec<u64>,
     unwitnessed_locked: Vec<Vec<u8>>,
+    declared_signers: Vec<usize>,
     hints_plain: bool,
 }
 
@@ -962,6 +968,36 @@ impl<'a> Run<'a> {
         let neg = self.t.chance(70);
         let amount = if neg { Int::new_negative(&bn(mag)) } else { Int::new(&bn(mag)) };
         let set = self.t.chance(40);
+        if !plutus && mag == 5 {
+            // the deprecated helpers on the transaction builder itself (native script by value, no signer hint): they work on
+            // the builder's own mint builder, which the scenario then continues with
+            let i = self.t.choose(5);
+            let script = self.w.natives[i].clone();
+            let r = if set {
+                let mut ma = MintAssets::new();
+                let _ = ma.insert(&name, &amount);
+                self.call("tb.set_mint_asset", |s| s.tb.set_mint_asset(&script, &ma))
+            } else {
+                self.call("tb.add_mint_asset", |s| s.tb.add_mint_asset(&script, &name, &amount))
+            };
+            if r.is_some() {
+                if let Some(mb) = self.tb.get_mint_builder() {
+                    self.mb = mb;
+                }
+                self.used.2 = true;
+                let pid = self.w.native_hash(i).to_bytes();
+                // the first witness given for a policy stays (the mint builder keeps the entry it has)
+                if !self.items.iter().any(|it| it.purpose == Purpose::Mint && it.target == pid) {
+                    self.items.push(ScriptItem { purpose: Purpose::Mint, target: pid.clone(), plutus: false, script_index: i, script_hash: pid.clone(), script_ref_input: None, witness_datum: None, datum_ref_input: None, marker: None, signer_hint: vec![] });
+                }
+                if !neg {
+                    *self.spare_assets.entry((pid.clone(), name.name())).or_insert(0) += mag;
+                    *self.minted.entry((pid, name.name())).or_insert(0) += mag;
+                }
+                self.ops.push(format!("mint(n{},{}{},{},deprecated helper)", i, if neg { "-" } else { "+" }, mag, if set { "set" } else { "add" }));
+            }
+            return;
+        }
         let (wit, policy, idx, refin, hint, marker) = if plutus {
             let i = self.t.choose(4);
             let (red, marker) = self.redeemer(&RedeemerTag::new_mint());
@@ -983,7 +1019,8 @@ impl<'a> Run<'a> {
                 self.items.push(ScriptItem { purpose: Purpose::Mint, target: pid.clone(), plutus, script_index: idx, script_hash: pid.clone(), script_ref_input: refin, witness_datum: None, datum_ref_input: None, marker, signer_hint: hint });
             }
             if !neg {
-                *self.spare_assets.entry((pid, name.name())).or_insert(0) += mag;
+                *self.spare_assets.entry((pid.clone(), name.name())).or_insert(0) += mag;
+                *self.minted.entry((pid, name.name())).or_insert(0) += mag;
             }
             let mb = self.mb.clone();
             self.tb.set_mint_builder(&mb);
@@ -1086,8 +1123,30 @@ impl<'a> Run<'a> {
             0 => {
                 let k = self.t.choose(6);
                 let h = self.w.keys[k].hash.clone();
-                self.tb.add_required_signer(&h);
-                self.ops.push(format!("required_signer(k{})", k));
+                match self.ops.len() % 4 {
+                    // declared on the inputs builder instead (one key / a set of one): counted as a signer, not written
+                    // into the body
+                    2 => {
+                        self.ib.add_required_signer(&h);
+                        let ib = self.ib.clone();
+                        self.tb.set_inputs(&ib);
+                        self.declared_signers.push(k);
+                        self.ops.push(format!("inputs_builder.add_required_signer(k{})", k));
+                    }
+                    3 => {
+                        let mut set = Ed25519KeyHashes::new();
+                        set.add(&h);
+                        self.ib.add_required_signers(&set);
+                        let ib = self.ib.clone();
+                        self.tb.set_inputs(&ib);
+                        self.declared_signers.push(k);
+                        self.ops.push(format!("inputs_builder.add_required_signers(k{})", k));
+                    }
+                    _ => {
+                        self.tb.add_required_signer(&h);
+                        self.ops.push(format!("required_signer(k{})", k));
+                    }
+                }
             }
             1 => {
                 let k = self.t.choose(6);
@@ -1134,11 +1193,22 @@ impl<'a> Run<'a> {
                 let mut md = GeneralTransactionMetadata::new();
                 // an empty metadata map is still auxiliary data: it is attached and hashed like any other
                 let empty = self.t.chance(50);
+                let mut route = 0;
                 if !empty {
-                    md.insert(&bn(self.t.choose(3) as u64), &TransactionMetadatum::new_text("hello".into()).unwrap());
+                    route = self.t.choose(3);
+                    md.insert(&bn(route as u64), &TransactionMetadatum::new_text("hello".into()).unwrap());
                 }
-                self.tb.set_metadata(&md);
-                self.ops.push(if empty { "metadata(empty)".into() } else { "metadata".into() });
+                // label 0: the whole map is set; 1 / 2: one entry is added to whatever auxiliary data is there
+                match route {
+                    1 => self.tb.add_metadatum(&bn(1), &TransactionMetadatum::new_text("hello".into()).unwrap()),
+                    2 => {
+                        let schema = if self.ops.len() % 2 == 0 { MetadataJsonSchema::NoConversions } else { MetadataJsonSchema::DetailedSchema };
+                        let doc = if self.ops.len() % 2 == 0 { "{\"k\":[1,\"two\"]}" } else { "{\"map\":[{\"k\":{\"int\":1},\"v\":{\"bytes\":\"00ff\"}}]}" };
+                        let _ = self.call("add_json_metadatum_with_schema", |s| s.tb.add_json_metadatum_with_schema(&bn(2), doc.to_string(), schema));
+                    }
+                    _ => self.tb.set_metadata(&md),
+                }
+                self.ops.push(if empty { "metadata(empty)".into() } else { ["metadata", "metadata(add_metadatum)", "metadata(add_json_metadatum)"][route].into() });
             }
             5 => {
                 let mut aux = AuxiliaryData::new();
@@ -1183,6 +1253,57 @@ impl<'a> Run<'a> {
                 let _ = self.call("set_current_treasury_value", |s| s.tb.set_current_treasury_value(&tv));
                 self.deposits += d as u128;
                 self.ops.push(format!("donation({})", d));
+            }
+        }
+    }
+
+    /// the caller takes something back: the builder (and the model) must forget it completely
+    fn op_removal(&mut self) {
+        match self.t.choose(6) {
+            0 => {
+                self.tb.remove_certs();
+                self.cb = CertificatesBuilder::new();
+                self.items.retain(|it| it.purpose != Purpose::Cert);
+                self.cert_seen.clear();
+                self.cert_history.clear();
+                self.unwitnessed_locked.clear();
+                // markers of redeemers that went away with the certificates can no longer appear
+                self.used.0 = false;
+                self.ops.push("remove_certs".into());
+            }
+            1 => {
+                self.tb.remove_withdrawals();
+                self.wb = WithdrawalsBuilder::new();
+                self.items.retain(|it| it.purpose != Purpose::Reward);
+                self.implicit_in = 0;
+                self.used.1 = false;
+                self.ops.push("remove_withdrawals".into());
+            }
+            2 => {
+                self.tb.remove_mint_builder();
+                self.mb = MintBuilder::new();
+                self.items.retain(|it| it.purpose != Purpose::Mint);
+                for (k, q) in std::mem::take(&mut self.minted) {
+                    if let Some(have) = self.spare_assets.get_mut(&k) {
+                        *have = have.saturating_sub(q);
+                    }
+                }
+                self.used.2 = false;
+                self.ops.push("remove_mint_builder".into());
+            }
+            3 => {
+                self.tb.remove_auxiliary_data();
+                self.ops.push("remove_auxiliary_data".into());
+            }
+            4 => {
+                self.tb.remove_ttl();
+                self.tb.remove_validity_start_interval();
+                self.ops.push("remove_ttl+validity_start".into());
+            }
+            _ => {
+                // nothing computed yet at this point of a staged history: must be harmless
+                self.tb.remove_script_data_hash();
+                self.ops.push("remove_script_data_hash".into());
             }
         }
     }
@@ -1262,6 +1383,7 @@ pub fn run(tape: &[u8], focus: Focus) -> Option<Outcome> {
         plutus_used: false,
         focus,
         spare_assets: BTreeMap::new(),
+        minted: BTreeMap::new(),
         in_coin: 0,
         out_coin: 0,
         implicit_in: 0,
@@ -1270,6 +1392,7 @@ pub fn run(tape: &[u8], focus: Focus) -> Option<Outcome> {
         cert_history: Vec::new(),
         unlocked_markers: Vec::new(),
         unwitnessed_locked: Vec::new(),
+        declared_signers: Vec::new(),
         hints_plain: true,
     };
     // at least one key input first, so that most scenarios have something to balance
@@ -1279,7 +1402,7 @@ pub fn run(tape: &[u8], focus: Focus) -> Option<Outcome> {
         let c = focus.certs;
         let gv = focus.governance;
         // weighted choice of the operation kind
-        let weights: [(u32, u8); 12] = [(50, 0), (12, 1), (s / 2, 2), (s, 3), (70, 4), (c, 5), (c / 2, 6), (s / 2 + 20, 7), (gv / 2, 8), (gv / 2, 9), (40, 10), (if focus.re_register { s / 8 + 6 } else { 0 }, 11)];
+        let weights: [(u32, u8); 13] = [(50, 0), (12, 1), (s / 2, 2), (s, 3), (70, 4), (c, 5), (c / 2, 6), (s / 2 + 20, 7), (gv / 2, 8), (gv / 2, 9), (32, 10), (8, 12), (if focus.re_register { s / 8 + 6 } else { 0 }, 11)];
         let total: u32 = weights.iter().map(|w| w.0).sum();
         let mut x = r.t.choose(total as usize) as u32;
         let mut kind = 0u8;
@@ -1304,6 +1427,7 @@ pub fn run(tape: &[u8], focus: Focus) -> Option<Outcome> {
                 8 => r.op_vote(),
                 9 => r.op_proposal(),
                 11 => r.op_re_add_input(),
+                12 => r.op_removal(),
                 _ => r.op_misc(),
             }
         }
@@ -1575,6 +1699,7 @@ pub fn run(tape: &[u8], focus: Focus) -> Option<Outcome> {
         required_signer_hints_plain: r.hints_plain,
         unlocked_markers: r.unlocked_markers,
         unwitnessed_locked: r.unwitnessed_locked,
+        declared_signers: r.declared_signers,
         cert_order: r.cert_seen,
     })
 }
